@@ -5,13 +5,13 @@ PID = "C04"
 
 
 def run(v):
-    # 9 disturbance kinds x 4 application checkpoint modes x 3 relative lengths of the new WAL generation = 108 scenarios
-    n = 108 if v.tier == "quick" else 108 * 12
+    # 11 disturbance kinds x 4 application checkpoint modes x 3 relative lengths of the new WAL generation = 132 scenarios
+    n = 132 if v.tier == "quick" else 132 * 12
     D.run_db(v, PID, "c04", n, 0,
              "disturbance scenarios: {new process idle / after application writes / after writes+checkpoint(mode)+writes; same DB "
              "object Close+Open around writes+checkpoint+writes; WAL removed by the last application connection; database file "
              "replaced by an older copy (with and without the replica ahead); meta directory removed offline; ResetLocalState at run "
-             "time} x checkpoint mode x new WAL generation shorter/equal/longer than the old cursor; after the disturbance one more "
+             "time; the WAL restarted twice with ever shorter generations (new process / same object)} x checkpoint mode x new WAL generation shorter/equal/longer than the old cursor; after the disturbance one more "
              "write and two SyncAndWait calls: restore must equal the source (page image), local and remote positions must agree and "
              "the remote position must have advanced. non-trivial = the scenario reached an acknowledged instant.")
 
